@@ -55,7 +55,8 @@ func (prop) Sweep(string) []kernel.Scenario { return nil }
 
 func (prop) Describe() kernel.Description {
 	return kernel.Description{
-		Rule: "one run = one generated API description (1–4 operations; templates with 1–3 placeholders, static siblings, shared prefixes, base path with/without trailing slash; " +
+		Rule: "Dimensions added with the seed waves: path values containing the template's own literal tail; a fixed query parameter in the client's pattern named like a caller-set one; auth writers that inspect the whole request; handler answers through a hand-written responder, the stock middleware.Error responder, or a stream that fails part-way (the bridge turns the handler's panic into an aborted connection); GetHeader and GetHeaders compared; four server doors (APIHandler, Serve, ServeWithBuilder, APIHandlerSwaggerUI). " +
+			"one run = one generated API description (1–4 operations; templates with 1–3 placeholders, static siblings, shared prefixes, base path with/without trailing slash; " +
 			"consumes json / urlencoded / multipart, produces json / text / octet-stream) built into BOTH a server (untyped API + Context.APIHandler) and a client call " +
 			"(client.Runtime.Submit with a params writer that sets exactly the generated values the way generated clients format them), joined by the wire bridge inside a synctest " +
 			"bubble. Values: byte strings over an alphabet biased to the awkward ('/', '%', '+', ' ', '?', '#', ':', '*', '{', '}', ';', '=', '&', '\"', '\\\\', NUL, 0xFF, multi-byte runes), " +
